@@ -9,8 +9,11 @@ A  translate/provparams.py regenerates Gen/ProvParams.lean (call sites that can 
 B  correspondence: real calls over entry points x methods x record_provenance x parameter values x
    existing provenance rows; the resulting provenance table (old rows by identity, new row's
    `parameters` in dict order with values) vs the Lean model run on the same call.
-C  the statement on the real tables: exactly one new, valid record naming the command and carrying
-   every passed result-affecting parameter; earlier rows byte-identical; off => table unchanged.
+C  the statement on the real tables: exactly one new, valid record naming the command, carrying every
+   passed result-affecting parameter and naming no parameter that is not one of this call (keys within
+   the called function's signature + passed extras); earlier rows byte-identical; off => table unchanged.
+   All calls of a run are made one after the other in one process, including back-to-back pairs that
+   share few parameters (preprocess_ts(keep_unary=True) then preprocess_ts(); preprocess then date; ...).
 """
 
 import json
@@ -121,6 +124,30 @@ def same_value(recorded, passed, name):
     return recorded == want
 
 
+def usable_keys(entry, method, kwargs):
+    """Keys a record of *this* call may name: `command`, the keyword parameters of the function called (for the dating
+    entries also those of the date() wrapper, of EstimationMethod.__init__ behind **kwargs and of the method's run()),
+    and whatever extra keywords were explicitly passed.  Computed from the real signatures, not from the model."""
+    import inspect
+
+    import tsdate
+    import tsdate.core as core
+
+    def params(f):
+        return {n for n, p in inspect.signature(f).parameters.items()
+                if p.kind in (p.KEYWORD_ONLY, p.POSITIONAL_OR_KEYWORD)} - {"self", "ts", "tree_sequence"}
+
+    keys = {"command"} | set(kwargs)
+    if entry in ("date",) + tuple(pc.DATING):
+        cls = {c.name: c for c in (core.VariationalGammaMethod, core.InsideOutsideMethod, core.MaximizationMethod)}[method]
+        keys |= params(getattr(tsdate, method)) | params(tsdate.date) | params(core.EstimationMethod.__init__) | params(cls.run)
+    elif entry == "preprocess_ts":
+        keys |= params(tsdate.preprocess_ts)
+    else:
+        keys |= params(tsdate.util.split_disjoint_nodes)
+    return keys
+
+
 def oracle(entry, method, kwargs, flag, pre, post):
     import tskit
     bad = []
@@ -147,6 +174,10 @@ def oracle(entry, method, kwargs, flag, pre, post):
     want_cmd = method if entry in ("date",) + tuple(pc.DATING) else entry
     if params.get("command") != want_cmd:
         bad.append(("wrong-command", f"command = {params.get('command')!r}, expected {want_cmd!r}"))
+    # the record names the parameters used *by this call*: no key of another function or of an earlier call
+    for k in sorted(set(params) - usable_keys(entry, method, kwargs)):
+        bad.append((f"record-names-parameter-not-of-this-call:{k}",
+                    f"record carries {k}={str(params[k])[:40]}, which is neither a parameter of {want_cmd} nor passed in this call"))
     for k, v in kwargs.items():
         if k in pc.SIMPLIFY_KWARGS:
             if k not in params:
@@ -169,6 +200,9 @@ def oracle(entry, method, kwargs, flag, pre, post):
 
 # ----------------------------------------------------------------------------- one call
 
+HISTORY = []      # every call made so far in this process (entry, method, kwargs, flag): the state a record could leak from
+
+
 def one_call(res, stats, pending, cid, entry, method, ts, kwargs, flag, numpy_case=False):
     kw = dict(kwargs)
     if flag is not None:
@@ -178,7 +212,9 @@ def one_call(res, stats, pending, cid, entry, method, ts, kwargs, flag, numpy_ca
     res.evaluations += 1
     label = f"{entry}{'/' + method if entry == 'date' else ''}({', '.join(f'{k}={str(v)[:24]}' for k, v in kw.items())}) on {len(pre)} earlier rows"
     rp = dict(kind="prov-call", entry=entry, method=method, ts=gen.ts_to_jsonable(ts), n_prior=len(pre), flag=flag,
-              kwargs={k: (pc.jsonable(v) if not isinstance(pc.jsonable(v), tuple) else f"<{type(v).__name__}>") for k, v in kwargs.items()})
+              kwargs={k: (pc.jsonable(v) if not isinstance(pc.jsonable(v), tuple) else f"<{type(v).__name__}>") for k, v in kwargs.items()},
+              n_preceding=len(HISTORY))
+    HISTORY.append(dict(entry=entry, method=method, kwargs=rp["kwargs"], flag=flag))
     stats["calls"][entry] = stats["calls"].get(entry, 0) + 1
     if not r["ok"]:
         stats["raised"][r["exc"]] = stats["raised"].get(r["exc"], 0) + 1
@@ -286,6 +322,33 @@ def body(ctx, res, stats, pending, rng, n_combo, n_inputs):
                 break
             cur = nxt
         stats["sequences"] += 1
+        # calls that follow each other in this process and share no / few parameters: a record must not inherit keys
+        # from the call before it (each pair is run back to back, on the same input)
+        mu, ne = info["mu"], info["Ne"]
+        pairs = [
+            [("preprocess_ts", None, {"keep_unary": True}), ("preprocess_ts", None, {})],
+            [("preprocess_ts", None, {"minimum_gap": 9.0, "keep_input_roots": True}), ("date", "variational_gamma", {"mutation_rate": mu, "rescaling_intervals": 0})],
+            [("inside_outside", "inside_outside", {"mutation_rate": mu, "population_size": ne, "eps": 1e-6}),
+             ("variational_gamma", "variational_gamma", {"mutation_rate": mu, "rescaling_intervals": 0})],
+            [("date", "variational_gamma", {"mutation_rate": mu, "rescaling_intervals": 2, "max_shape": 30.0}),
+             ("maximization", "maximization", {"mutation_rate": mu, "population_size": ne})],
+            [("date", "maximization", {"mutation_rate": mu, "population_size": ne, "num_threads": 1}), ("split_disjoint_nodes", None, {}),
+             ("preprocess_ts", None, {"erase_flanks": False})],
+        ]
+        base = pc.with_prior_rows(ts0, rng, 1)
+        for seq in pairs:
+            for entry, method, kwargs in seq:
+                one_call(res, stats, pending, nid(), entry, method, base, kwargs, True)
+            stats["sequences"] += 1
+
+
+def attach_history(res):
+    """A record can only be wrong about *this* call because of what happened earlier in the process: make the replay of
+    the first violations self-contained by listing the calls that preceded them (re-run, in order, by `replay`)."""
+    for v in (res.violations[:40] + res.corr_failures[:5]):
+        n = v.replay.get("n_preceding") if isinstance(v.replay, dict) else None
+        if n:
+            v.replay["preceding_calls"] = [dict(h) for h in HISTORY[:n]][-400:]
 
 
 def run(ctx):
@@ -295,10 +358,11 @@ def run(ctx):
     pending = {}
     body(ctx, res, stats, pending, ctx.rng(1), ctx.n(3, 25), ctx.n(1, 8))
     compare_with_model(res, pending, stats)
+    attach_history(res)
     res.rule = ("Real calls over entry points {date x 3 methods, the 3 method functions, preprocess_ts, split_disjoint_nodes} x record_provenance "
                 "{absent, True, False} x parameter sets (each generic and each method-specific keyword alone, random combinations, population_size as "
                 "number / dict / PopulationSizeHistory, numpy-typed values) x 0-3 earlier provenance rows (one of them not JSON), plus a 4-step pipeline "
-                "feeding each output to the next call. Each call: provenance table before/after compared with the Lean model (old rows by identity, new "
+                "feeding each output to the next call and back-to-back call sequences in the same process that share few parameters. Each call: provenance table before/after compared with the Lean model (old rows by identity, new "
                 "row's parameters in dict order with values) and checked against the statement. Non-trivial = recording on and a row was appended; "
                 "distinct by (entry, method, keyword values, number of earlier rows).")
     res.extra = dict(input_distribution=stats)
@@ -311,6 +375,7 @@ def search(ctx):
     pending = {}
     body(ctx, res, stats, pending, ctx.rng(7), ctx.n(1, 4), ctx.n(1, 2))
     compare_with_model(res, pending, stats)
+    attach_history(res)
     res.corr_failures = []
     return res
 
@@ -321,6 +386,13 @@ def replay(ctx, payload):
     ts = pc.with_prior_rows(gen.ts_from_jsonable(d["ts"]), ctx.rng(9), d["n_prior"])
     res, stats, pending = Result(), new_stats(), {}
     kwargs = {k: v for k, v in d["kwargs"].items() if not (isinstance(v, str) and v.startswith("<"))}
+    prev = d.get("preceding_calls") or []
+    for h in prev:      # the calls made earlier in the failing process, in order, on the same input
+        hk = {k: v for k, v in h["kwargs"].items() if not (isinstance(v, str) and v.startswith("<"))}
+        if h["flag"] is not None:
+            hk["record_provenance"] = h["flag"]
+        pc.call_entry(h["entry"], h["method"], ts, hk)
+    print(f"re-ran {len(prev)} preceding call(s) of the failing process, now the failing call:")
     one_call(res, stats, pending, "replay", d["entry"], d["method"], ts, kwargs, d["flag"])
     compare_with_model(res, pending, stats)
     for p in pending.values():
